@@ -106,7 +106,7 @@ def analyse(ctx, case, run, S):
     ctx.expect(info['decode'] == 'ok', 'C02:decode', 'well-formed adversarial proof was not decoded: %s' % info['decode'], cfg, None)
     G, H, g, h = gens_by_derivation(run, n, m, x)
     if not ctx.expect(None not in G + H + g + [h], 'C02:generators',
-                      '%s: a generator required by the relation (documented derivation) is not used by the verifier at all' % case['name'], cfg, 'tampered_accepted',
+                      '%s: a generator required by the relation (documented derivation) is not used by the verifier at all' % case['name'], cfg, 'relation_disagrees',
                       {'missing': [i for i, b in enumerate(G + H + g + [h]) if b is None][:8]}):
         return
     proof = adversarial_proof(run, info)
